@@ -5,4 +5,6 @@ MC_Threads == {1, 2}
 Opts_EclMask == {"ecl", "mask"}
 Opts_ModeVersion == {"mode", "version"}
 Opts_EclVersion == {"ecl", "version"}
+\* one builder, one thread: every sequential program (setter order, repeated builds, a setter between two builds)
+MC_One == {1}
 ===============================================================================
